@@ -45,10 +45,10 @@ Hypothesis Hfuns : forall f ps b, lookup f sfuns = Some (ps, b) ->
             Forall (fun x => reserved x = false) ps /\ wfb b.
 Hypothesis Hctor1 : forall u c, ctor_ok u c true ->
   lookup (ctor_name u c) gfuncs =
-  Some (["v"%string], [GSReturn (GStructLit (case_struct u c) [("Value"%string, GVar "v"%string)])]).
+  Some (["v"%string], [GSReturn (GStructLit (case_struct u c) ["Value"%string] [("Value"%string, GVar "v"%string)])]).
 Hypothesis Hctor0 : forall u c, ctor_ok u c false ->
   lookup (ctor_name u c) gfuncs = None /\
-  lookup (ctor_name u c) gvars = Some (GStructLit (case_struct u c) []).
+  lookup (ctor_name u c) gvars = Some (GStructLit (case_struct u c) [] []).
 
 Lemma var_sim' senv genv x v :
   erel senv genv -> reserved x = false -> lookup_var sfuns x senv = Some v ->
@@ -260,13 +260,14 @@ Proof.
     constructor; [exact Vs|]. rewrite (evals_length _ _ _ _ _ _ Es). assumption.
   - (* record *)
     inversion W; subst. sstep H. rb H Es.
-    destruct (Nat.eqb (List.length fs) (List.length v0)) eqn:Ln; inversion H; subst. apply Nat.eqb_eq in Ln.
+    destruct (Nat.eqb (List.length fs) (List.length v0)) eqn:Ln; [|discriminate]. apply Nat.eqb_eq in Ln.
+    destruct (arrange decl (combine fs v0)) as [rfs|] eqn:Ar; inversion H; subst.
     match goal with Wa : Forall wfe es, Hp : Forall pure es |- _ =>
       destruct (IPs _ _ _ _ _ _ Wa Hp E Es) as (-> & K) end.
     split; [reflexivity|]. intros env' k Q. destruct (K env' k Q) as (gvs & Ps & Vs).
-    eexists; split; [eapply PE_record; eauto|].
-    + rewrite Ln. apply (evals_length _ _ _ _ _ _ Es).
-    + constructor. apply fields_rel; exact Vs.
+    destruct (arrange_rel d ctor_ok gfuncs decl _ _ _ (fields_rel fs _ _ Vs) Ar) as (gfs & Ag & Fr).
+    exists (GVStruct n0 gfs); split; [eapply PE_record; eauto|constructor; exact Fr].
+    rewrite Ln. apply (evals_length _ _ _ _ _ _ Es).
   - (* field *)
     inversion W; subst. sstep H. rb H E1.
     match goal with Wa : wfe e, Pa : pure e |- _ => destruct (IP _ _ _ _ _ _ Wa Pa E E1) as (-> & K1) end.
@@ -791,17 +792,18 @@ Proof.
     + constructor; [exact Vs|]. rewrite Le. assumption.
   - (* record *)
     inversion W; subst. sstep H. rb H Es.
-    destruct (Nat.eqb (List.length fields) (List.length v0)) eqn:Ln; inversion H; subst.
+    destruct (Nat.eqb (List.length fields) (List.length v0)) eqn:Ln; [|discriminate].
     apply Nat.eqb_eq in Ln.
+    destruct (arrange decl (combine fields v0)) as [rfs|] eqn:Ar; inversion H; subst.
     useEs IEs Es k gs Vs Gs.
     pose proof (evals_length _ _ _ _ _ _ Es) as Le. pose proof (Forall2_length' _ _ _ Vs) as Lv.
     assert (Lc : List.length fields = List.length (compile_list k es)) by (rewrite compile_list_length; congruence).
-    exists (GVStruct name (combine fields gs)); split.
-    + change (compile k (ERecord name fields es)) with (GStructLit name (combine fields (compile_list k es))).
-      rewrite <- (combine_fst fields (compile_list k es) Lc) at 2.
-      apply G_struct. rewrite (combine_snd _ _ Lc).
-      apply Gs_close; exact Gs.
-    + constructor. apply fields_rel; exact Vs.
+    destruct (arrange_rel d ctor_ok gfuncs decl _ _ _ (fields_rel fields _ _ Vs) Ar) as (gfs & Ag & Fr).
+    exists (GVStruct name gfs); split; [|constructor; exact Fr].
+    change (compile k (ERecord name decl fields es)) with (GStructLit name decl (combine fields (compile_list k es))).
+    eapply G_struct.
+    + rewrite (combine_snd _ _ Lc). apply Gs_close; exact Gs.
+    + rewrite (combine_fst _ _ Lc). exact Ag.
   - (* field *)
     inversion W; subst. sstep H. rb H E1. destruct v0 as [| | | | |rn fs| | | |]; try discriminate.
     destruct (lookup f fs) as [fv|] eqn:L; cbn in H; inversion H; subst.
@@ -818,15 +820,14 @@ Proof.
         match goal with Hc : ctor_ok _ _ true |- _ => rewrite (Hctor1 _ _ Hc) end. reflexivity.
       * eapply Gs_cons; [exact G1|apply Gs_nil].
       * change (GVStruct (case_struct uname cname) [("Value"%string, g1)])
-          with (ret_val (Some (GVStruct (case_struct uname cname) (combine (map fst [("Value"%string, GVar "v"%string)]) [g1])))).
-        eapply Ga_clo; [reflexivity|]. eapply Gx_return. apply G_struct.
-        cbn [map snd]. eapply Gs_cons; [|apply Gs_nil]. apply G_var. reflexivity.
+          with (ret_val (Some (GVStruct (case_struct uname cname) [("Value"%string, g1)]))).
+        eapply Ga_clo; [reflexivity|]. eapply Gx_return.
+        eapply G_struct; [cbn [map snd]; eapply Gs_cons; [apply G_var; reflexivity|apply Gs_nil]|reflexivity].
     + inversion H; subst. destruct E as (Ea & Eb & Ec).
       match goal with Hc : ctor_ok _ _ false |- _ => destruct (Hctor0 _ _ Hc) as (L1 & L2) end.
       exists (GVStruct (case_struct uname cname) []); split; [|constructor].
       cbn [compile]. eapply G_var_pkgvar; [apply Ec; apply ctor_name_like|exact L1|exact L2|].
-      change (@nil (string * gval)) with (combine (map fst (@nil (string * gexpr))) (@nil gval)).
-      apply G_struct. apply Gs_nil.
+      eapply G_struct; [apply Gs_nil|reflexivity].
   - (* union match *)
     destruct (HMU _ _ _ _ _ _ _ _ _ k W E H) as (o & G & Vo).
     exists (ret_val o); split; [|exact Vo].
